@@ -4,37 +4,58 @@
     Go sources transcribed (function by function):
       x/hold/keeper/keeper.go          ValidateNewHold, AddHold, ReleaseHold            -> [add_hold], [release_hold]
       x/exchange/orders.go             AskOrder/BidOrder.GetHoldAmount, Order.Split     -> [order_hold], [split_order]
-      x/exchange/keeper/orders.go      CreateAskOrder/CreateBidOrder (fee, store, hold), CancelOrder,
-                                       CancelAllOrdersForMarket                          -> [create_order], [cancel_order]
+                                       ValidateOrderIDs / findDuplicateIDs (no id twice) -> [nodupb] in [settle]
+      x/exchange/keeper/orders.go      CreateAskOrder/CreateBidOrder (fee, store, hold), CancelOrder (owner or
+                                       cancel permission), CancelAllOrdersForMarket, SetOrderExternalID
+                                                                                         -> [create_order], [cancel_order_by], [set_ext_id]
       x/exchange/keeper/fulfillment.go closeSettlement (release FILLED orders' holds, transfers + fees,
                                        store the unfilled part, delete the filled orders); reached from
                                        SettleOrders, FillBids and FillAsks               -> [settle]
       x/exchange/keeper/commitments.go addCommitment, ReleaseCommitment(s), ReleaseAllCommitmentsForMarket,
                                        SettleCommitments, setCommitmentAmount            -> [add_commitment] ...
-      x/exchange/commitments.go        SimplifyAccountAmounts                            -> [simplify]
+      x/exchange/commitments.go        SimplifyAccountAmounts, AccountAmount.Validate    -> [simplify], [entries_valid]
       x/exchange/keeper/payments.go    CreatePayment, AcceptPayment, RejectPayment(s), CancelPayments,
                                        UpdatePaymentTarget, deletePaymentAndReleaseHold  -> [pay_*]
-      x/exchange/keeper/market.go      CloseMarket                                       -> [close_market]
+      x/exchange/keeper/market.go      CloseMarket, WithdrawMarketFunds                  -> [close_market], [withdraw]
       x/exchange/keeper/genesis.go     InitGenesis (hold coverage check)                 -> [genesis_init]
+      cosmos-sdk (fork) x/bank/keeper  LockedCoins = unvested + hold, SpendableCoins,
+                                       subUnlockedCoins, addCoins                        -> [vlock_of], [spendable], [spend], [credit]
 
     Conventions / what is assumed about anything external:
     - Accounts, denoms, markets, order ids and payment external ids are interned to [Z] by the
       harness (only equality matters).  Amounts are [Z].
     - [coins] is a list of (denom, amount); its meaning is [amt_of] (sum of the entries of a
-      denom), so sdk.Coins.Add is [coins_add] and no sortedness invariant is needed.
+      denom), so sdk.Coins.Add is [coins_add] and no sortedness invariant is needed.  An ask whose
+      flat fee is in the ASSETS denom therefore has a hold amount with two entries of one denom;
+      AddHold processes them one after the other against the running hold, which is the same
+      function as sdk.Coins.Add merging them first ([add_hold_iff] in Proofs/HoldsAdmit.v).
     - Stores are first-match association lists ([afind]/[aset]/[adel]); a KV store is the special
-      case with distinct keys, which every function here preserves.
-    - Bank (forked cosmos-sdk, trusted): [spend] is subUnlockedCoins (refuses to take an account's
-      balance below what is locked by the hold module), [credit] is addCoins.  Recipients of
-      exchange fees (market account, fee collector) are not tracked.
-    - What the model does NOT decide: market flags, permissions, required attributes, fee
-      sufficiency, marker send restrictions, BuildSettlement's matching.  Every operation carries
-      [adm] ("admitted by the implementation"): with [adm = false] the state is unchanged (tx
-      rollback); with [adm = true] the model applies the hold-relevant effect and answers
-      [RModelFail] when its own checks (existence, spendable funds, held amounts, split
-      divisibility ...) say the operation cannot succeed.  For order settlement the net balance
-      effect of the transfers and fees is an input observed by the harness ([xfers]); which orders
-      were filled and by how much is an input too.
+      case with distinct keys, which every function here preserves ([kv_ok], Proofs/HoldsWf.v).
+    - Bank (forked cosmos-sdk, trusted): locked coins of an account are the coins still vesting
+      ([vest], constant during a history: no block time passes and nothing is delegated) plus the
+      coins on hold; [spend] is subUnlockedCoins (refuses to take the balance below what is
+      locked), [credit] is addCoins.  Recipients of exchange fees (market account, fee collector)
+      are not tracked; a market withdrawal is only the credit to the receiving account.
+    - What the model does NOT decide: market flags, permissions other than the cancel permission
+      bit handed in with OCancel, required attributes, fee sufficiency, marker send restrictions,
+      BuildSettlement's matching.  Every operation carries [adm] = "every check the model does not
+      make itself passed".  With [adm = false] the state is unchanged (tx rollback).  With
+      [adm = true] the model applies the hold-relevant effect and REFUSES ([RRefused], state
+      unchanged) when its own checks fail: existence, owner-or-permission for a cancel, spendable
+      funds for fees and new holds, committed / held amounts for releases, split divisibility,
+      duplicate ids ...  So for [adm = true] the result is a PREDICTION of accept/reject that the
+      correspondence compares with the implementation in both directions.  The harness sets [adm]
+      from facts it knows by construction (message ValidateBasic, signer has the permission) and,
+      for order / commitment creation, from the implementation's answer to the same message in a
+      copy of the state where the sender has unlimited spendable funds (so a refusal that remains
+      is not about funds).  For order settlement [adm] is the implementation's own answer (the
+      matching is not modelled), the net balance effect of the transfers and fees is an input
+      observed by the harness ([xfers]) and so are the filled orders.
+    - CloseMarket swallows the errors of the individual cancellations / releases.  A Go
+      ReleaseHold that fails half way leaves the denominations it did release released; the model
+      skips the whole item instead.  The two differ only when some hold is SMALLER than what the
+      records require, which no reachable state shows ([C02_inv_reachable]); under cover nothing
+      is skipped at all ([close_market_delta] in Proofs/HoldsMulti.v).
     - An errored operation returns the OLD state.  No proofs in this file. *)
 From Coq Require Import ZArith List Bool.
 Import ListNotations.
@@ -155,21 +176,26 @@ Record state := mk_state {
   commits : list (key2 * coins);        (* (market, account) |-> committed funds *)
   pays : list (key2 * payment);         (* (source, external id) |-> payment *)
   holds : list (key2 * Z);              (* (account, denom) |-> amount on hold *)
-  bals : list (key2 * Z) }.             (* (account, denom) |-> bank balance *)
+  bals : list (key2 * Z);               (* (account, denom) |-> bank balance *)
+  vest : list (key2 * Z) }.             (* (account, denom) |-> amount locked by a vesting schedule *)
 
 Definition set_orders (s : state) (x : list (Z * order)) (lid : Z) : state :=
-  mk_state x lid (commits s) (pays s) (holds s) (bals s).
+  mk_state x lid (commits s) (pays s) (holds s) (bals s) (vest s).
 Definition set_commits (s : state) (x : list (key2 * coins)) : state :=
-  mk_state (orders s) (last_id s) x (pays s) (holds s) (bals s).
+  mk_state (orders s) (last_id s) x (pays s) (holds s) (bals s) (vest s).
 Definition set_pays (s : state) (x : list (key2 * payment)) : state :=
-  mk_state (orders s) (last_id s) (commits s) x (holds s) (bals s).
+  mk_state (orders s) (last_id s) (commits s) x (holds s) (bals s) (vest s).
 Definition set_holds (s : state) (x : list (key2 * Z)) : state :=
-  mk_state (orders s) (last_id s) (commits s) (pays s) x (bals s).
+  mk_state (orders s) (last_id s) (commits s) (pays s) x (bals s) (vest s).
 Definition set_bals (s : state) (x : list (key2 * Z)) : state :=
-  mk_state (orders s) (last_id s) (commits s) (pays s) (holds s) x.
+  mk_state (orders s) (last_id s) (commits s) (pays s) (holds s) x (vest s).
 
 Definition hold_of (s : state) (a d : Z) : Z := zget (a, d) (holds s).
 Definition bal_of (s : state) (a d : Z) : Z := zget (a, d) (bals s).
+(** Only positive locked amounts count (the bank's getLockedCoinsFnWrapper drops the rest). *)
+Definition vlock_of (s : state) (a d : Z) : Z := Z.max 0 (zget (a, d) (vest s)).
+(** SpendableCoins: balance minus everything locked (still vesting + on hold). *)
+Definition spendable (s : state) (a d : Z) : Z := bal_of s a d - hold_of s a d - vlock_of s a d.
 
 (** ** What the exchange records require to be reserved. *)
 Definition sum_by {X} (f : X -> Z) (l : list X) : Z := fold_right (fun x acc => f x + acc) 0 l.
@@ -185,8 +211,7 @@ Definition required (s : state) (a d : Z) : Z :=
   sum_by (order_req a d) (orders s) + sum_by (commit_req a d) (commits s) + sum_by (pay_req a d) (pays s).
 
 (** ** Hold keeper. *)
-(** AddHold (with ValidateNewHold): every positive coin must be covered by the spendable balance,
-    i.e. the balance minus what is already on hold. *)
+(** AddHold (with ValidateNewHold): every positive coin must be covered by the spendable balance. *)
 Fixpoint add_hold (s : state) (a : Z) (cs : coins) : option state :=
   match cs with
   | [] => Some s
@@ -194,7 +219,7 @@ Fixpoint add_hold (s : state) (a : Z) (cs : coins) : option state :=
       let d := fst c in let v := snd c in
       if v =? 0 then add_hold s a r
       else if v <? 0 then None
-      else if bal_of s a d - hold_of s a d <? v then None
+      else if spendable s a d <? v then None
       else add_hold (set_holds s (aset k2_eqb (a, d) (hold_of s a d + v) (holds s))) a r
   end.
 
@@ -211,7 +236,7 @@ Fixpoint release_hold (s : state) (a : Z) (cs : coins) : option state :=
   end.
 
 (** ** Bank. *)
-(** subUnlockedCoins: the bank refuses to spend what is locked (on hold). *)
+(** subUnlockedCoins: the bank refuses to spend what is locked (still vesting or on hold). *)
 Fixpoint spend (s : state) (a : Z) (cs : coins) : option state :=
   match cs with
   | [] => Some s
@@ -219,7 +244,7 @@ Fixpoint spend (s : state) (a : Z) (cs : coins) : option state :=
       let d := fst c in let v := snd c in
       if v =? 0 then spend s a r
       else if v <? 0 then None
-      else if bal_of s a d - hold_of s a d <? v then None
+      else if spendable s a d <? v then None
       else spend (set_bals s (aset k2_eqb (a, d) (bal_of s a d - v) (bals s))) a r
   end.
 
@@ -236,10 +261,12 @@ Definition send (s : state) (from to : Z) (cs : coins) : option state :=
   obind (spend s from cs) (fun s1 => credit s1 to cs).
 
 (** Net effect of a group of bank transfers (signed deltas per (account, denom)); every spend
-    inside the group was checked by the bank, so at the end no touched balance is below its hold. *)
+    inside the group was checked by the bank, so at the end no touched balance is below its hold,
+    and a balance that was debited is not below hold + still-vesting either. *)
 Definition apply_net (s : state) (xs : list (key2 * Z)) : option state :=
   let b := fold_left (fun b x => aset k2_eqb (fst x) (zget (fst x) b + snd x) b) xs (bals s) in
-  if forallb (fun x => zget (fst x) (holds s) <=? zget (fst x) b) xs
+  if forallb (fun x => zget (fst x) (holds s)
+                       + (if snd x <? 0 then Z.max 0 (zget (fst x) (vest s)) else 0) <=? zget (fst x) b) xs
   then Some (set_bals s b) else None.
 
 Fixpoint fold_opt {X} (f : X -> state -> option state) (l : list X) (s : state) : option state :=
@@ -275,11 +302,21 @@ Definition create_order (o : order) (cfee : coins) (s : state) : option state :=
       let s2 := set_orders s1 (aset Z.eqb id o (orders s1)) id in
       add_hold s2 (o_owner o) (order_hold o)).
 
-(** CancelOrder: release the ORDER's hold amount and delete it. *)
+(** CancelOrder (after the permission check): release the ORDER's hold amount and delete it. *)
 Definition cancel_order (id : Z) (s : state) : option state :=
   obind (afind Z.eqb id (orders s)) (fun o =>
   obind (release_hold s (o_owner o) (order_hold o)) (fun s1 =>
     Some (set_orders s1 (adel Z.eqb id (orders s1)) (last_id s1)))).
+
+(** CancelOrder as reached from MsgCancelOrder: the signer must be the order's owner or hold the
+    cancel permission of the order's market ([priv], a fact about the market's access grants). *)
+Definition cancel_order_by (signer : Z) (priv : bool) (id : Z) (s : state) : option state :=
+  obind (afind Z.eqb id (orders s)) (fun o =>
+    if (signer =? o_owner o) || priv then cancel_order id s else None).
+
+(** SetOrderExternalID: the order must exist; its amounts (and so its hold) are untouched. *)
+Definition set_ext_id (id : Z) (s : state) : option state :=
+  obind (afind Z.eqb id (orders s)) (fun _ => Some s).
 
 (** closeSettlement for one fully filled order: release its hold, delete it.  (Go releases all
     holds first and deletes after the transfers; the hold store and the order store are
@@ -294,9 +331,12 @@ Definition fill_partial (id filled : Z) (s : state) : option state :=
   obind (release_hold s (o_owner o) (order_hold (fst fl))) (fun s1 =>
     Some (set_orders s1 (aset Z.eqb id (snd fl) (orders s1)) (last_id s1))))).
 
-Definition settle (fulls : list Z) (part : option (Z * Z)) (xfers : list (key2 * Z)) (s : state)
+(** [req] are the order ids exactly as listed in the message (asks then bids): ValidateOrderIDs /
+    findDuplicateIDs refuse a message that names an order twice. *)
+Definition settle (req fulls : list Z) (part : option (Z * Z)) (xfers : list (key2 * Z)) (s : state)
   : option state :=
-  if negb (nodupb (fulls ++ match part with Some p => [fst p] | None => [] end)) then None
+  if negb (nodupb req) then None
+  else if negb (nodupb (fulls ++ match part with Some p => [fst p] | None => [] end)) then None
   else
     obind (fold_opt fill_full fulls s) (fun s1 =>
     obind (match part with
@@ -323,19 +363,20 @@ Definition add_commitment (m a : Z) (amount : coins) (s : state) : option state 
 Definition commit_funds (m a : Z) (amount cfee : coins) (s : state) : option state :=
   obind (spend s a cfee) (add_commitment m a amount).
 
-(** ReleaseCommitment: a zero [amount] means "everything". *)
-Definition release_commitment (m : Z) (e : Z * coins) (s : state) : option state :=
-  let a := fst e in let amount := snd e in
+(** ReleaseCommitment, the decision: (what stays committed, what is released) from the current
+    commitment and the requested amount; a zero [amount] means "everything". *)
+Definition release_split (cur amount : coins) : option (coins * coins) :=
   if negb (coins_nonneg amount) then None
-  else
-    let cur := cget (m, a) (commits s) in
-    if coins_is_zero cur then None
-    else
-      obind (if negb (coins_is_zero amount)
-             then (if coins_geb cur amount then Some (coins_sub cur amount, amount) else None)
-             else Some ([], cur)) (fun nr =>
-      obind (release_hold s a (snd nr)) (fun s1 =>
-        Some (set_commits s1 (cset (m, a) (fst nr) (commits s1))))).
+  else if coins_is_zero cur then None
+  else if negb (coins_is_zero amount)
+       then (if coins_geb cur amount then Some (coins_sub cur amount, amount) else None)
+       else Some ([], cur).
+
+Definition release_commitment (m : Z) (e : Z * coins) (s : state) : option state :=
+  let a := fst e in
+  obind (release_split (cget (m, a) (commits s)) (snd e)) (fun nr =>
+  obind (release_hold s a (snd nr)) (fun s1 =>
+    Some (set_commits s1 (cset (m, a) (fst nr) (commits s1))))).
 
 Definition release_commitments (m : Z) (es : list (Z * coins)) (s : state) : option state :=
   fold_opt (release_commitment m) es s.
@@ -355,10 +396,17 @@ Definition net_of (sign : Z) (es : list (Z * coins)) : list (key2 * Z) :=
 Definition sum_entries (es : list (Z * coins)) : coins :=
   fold_left (fun acc e => coins_add acc (snd e)) es [].
 
+(** AccountAmount.Validate for every entry (MsgMarketCommitmentSettleRequest.ValidateBasic):
+    a non-empty amount of positive coins. *)
+Definition entries_valid (es : list (Z * coins)) : bool :=
+  forallb (fun e => match snd e with [] => false | _ => coins_pos (snd e) end) es.
+
 (** SettleCommitments: release inputs and fees, move the funds (inputs out, outputs in, fees to the
     market account), commit the outputs again without the market checks. *)
 Definition settle_commitments (m : Z) (inputs outputs fees : list (Z * coins)) (s : state)
   : option state :=
+  if negb (entries_valid inputs && entries_valid outputs && entries_valid fees) then None
+  else
   let ins := simplify inputs in
   let outs := simplify outputs in
   let fs := simplify fees in
@@ -403,9 +451,13 @@ Definition pay_reject (target src ext : Z) (s : state) : option state :=
       if (p_target p =? 0) || negb (p_target p =? target) then None
       else delete_release (src, ext) s).
 
+(** The payments of [src] that name [target]. *)
+Definition pays_from_to (target src : Z) (l : list (key2 * payment)) : list (key2 * payment) :=
+  filter (fun e => (fst (fst e) =? src) && (p_target (snd e) =? target)) l.
+
 (** RejectPayments: every payment of each listed source that names this target. *)
 Definition pay_reject_source (target src : Z) (s : state) : option state :=
-  let ks := map fst (filter (fun e => (fst (fst e) =? src) && (p_target (snd e) =? target)) (pays s)) in
+  let ks := map fst (pays_from_to target src (pays s)) in
   match ks with
   | [] => None
   | _ => fold_opt delete_release ks s
@@ -429,19 +481,28 @@ Definition pay_retarget (src ext newt : Z) (s : state) : option state :=
     if p_target p =? newt then None
     else Some (set_pays s (aset k2_eqb (src, ext) (mk_payment (p_samt p) (p_tamt p) newt) (pays s)))).
 
-(** ** CloseMarket: cancel every order of the market and release every commitment to it; errors
+(** ** Markets. *)
+Definition market_orders (m : Z) (l : list (Z * order)) : list (Z * order) :=
+  filter (fun e => o_market (snd e) =? m) l.
+Definition market_commits (m : Z) (l : list (key2 * coins)) : list (key2 * coins) :=
+  filter (fun e => fst (fst e) =? m) l.
+
+(** CloseMarket: cancel every order of the market and release every commitment to it; errors
     of the individual cancellations / releases are logged and skipped. *)
 Definition close_market (m : Z) (s : state) : option state :=
-  let ids := map fst (filter (fun e => o_market (snd e) =? m) (orders s)) in
+  let ids := map fst (market_orders m (orders s)) in
   obind (fold_opt (fun id => try_or_skip (cancel_order id)) ids s) (fun s1 =>
-    let accts := map (fun e => snd (fst e)) (filter (fun e => fst (fst e) =? m) (commits s1)) in
+    let accts := map (fun e => snd (fst e)) (market_commits m (commits s1)) in
     fold_opt (fun a => try_or_skip (release_commitment m (a, []))) accts s1).
+
+(** WithdrawMarketFunds: the market account (not tracked) pays [to]. *)
+Definition withdraw (to : Z) (amount : coins) (s : state) : option state := credit s to amount.
 
 (** ** Operations and histories. *)
 Inductive op :=
 | OCreate (adm : bool) (o : order) (cfee : coins)
-| OCancel (adm : bool) (id : Z)
-| OSettle (adm : bool) (fulls : list Z) (part : option (Z * Z)) (xfers : list (key2 * Z))
+| OCancel (adm : bool) (signer : Z) (priv : bool) (id : Z)
+| OSettle (adm : bool) (req fulls : list Z) (part : option (Z * Z)) (xfers : list (key2 * Z))
 | OCommit (adm : bool) (m a : Z) (amount cfee : coins)
 | ORelease (adm : bool) (m : Z) (entries : list (Z * coins))
 | OCommitSettle (adm : bool) (m : Z) (inputs outputs fees : list (Z * coins))
@@ -451,24 +512,28 @@ Inductive op :=
 | OPayRejectAll (adm : bool) (target : Z) (srcs : list Z)
 | OPayCancel (adm : bool) (src : Z) (exts : list Z)
 | OPayRetarget (adm : bool) (src ext newt : Z)
-| OManageFees (adm : bool)
+| OManageFees (adm : bool)          (* any market administration that touches neither records nor funds *)
+| OSetExtId (adm : bool) (id : Z)
+| OWithdraw (adm : bool) (to : Z) (amount : coins)
 | OCloseMarket (adm : bool) (m : Z).
 
-Inductive result := ROk | RRejected | RModelFail.
+(** [ROk] accepted; [RRejected] refused by a check outside the model ([adm = false]);
+    [RRefused] refused by the model's own (hold-relevant) checks. *)
+Inductive result := ROk | RRejected | RRefused.
 
 Definition op_adm (o : op) : bool :=
   match o with
-  | OCreate b _ _ | OCancel b _ | OSettle b _ _ _ | OCommit b _ _ _ _ | ORelease b _ _
+  | OCreate b _ _ | OCancel b _ _ _ | OSettle b _ _ _ _ | OCommit b _ _ _ _ | ORelease b _ _
   | OCommitSettle b _ _ _ _ | OPayCreate b _ _ _ _ _ | OPayAccept b _ _ _ _ _
   | OPayReject b _ _ _ | OPayRejectAll b _ _ | OPayCancel b _ _ | OPayRetarget b _ _ _
-  | OManageFees b | OCloseMarket b _ => b
+  | OManageFees b | OSetExtId b _ | OWithdraw b _ _ | OCloseMarket b _ => b
   end.
 
 Definition op_fun (o : op) : state -> option state :=
   match o with
   | OCreate _ ord cfee => create_order ord cfee
-  | OCancel _ id => cancel_order id
-  | OSettle _ fulls part xfers => settle fulls part xfers
+  | OCancel _ signer priv id => cancel_order_by signer priv id
+  | OSettle _ req fulls part xfers => settle req fulls part xfers
   | OCommit _ m a amount cfee => commit_funds m a amount cfee
   | ORelease _ m es => match es with [] => fun _ => None | _ => release_commitments m es end
   | OCommitSettle _ m i o f => settle_commitments m i o f
@@ -479,6 +544,8 @@ Definition op_fun (o : op) : state -> option state :=
   | OPayCancel _ src exts => pay_cancel src exts
   | OPayRetarget _ src ext nt => pay_retarget src ext nt
   | OManageFees _ => fun s => Some s
+  | OSetExtId _ id => set_ext_id id
+  | OWithdraw _ to amount => withdraw to amount
   | OCloseMarket _ m => close_market m
   end.
 
@@ -486,7 +553,7 @@ Definition step (s : state) (o : op) : state * result :=
   if op_adm o then
     match op_fun o s with
     | Some s' => (s', ROk)
-    | None => (s, RModelFail)
+    | None => (s, RRefused)
     end
   else (s, RRejected).
 
@@ -501,11 +568,26 @@ Definition pay_req_of (s : state) (k : key2) (a d : Z) : Z :=
 Definition entries_amt (es : list (Z * coins)) (a d : Z) : Z :=
   sum_by (fun e => if fst e =? a then amt_of (snd e) d else 0) es.
 
+(** A release list is consumed entry by entry: each entry releases the amount it names, or (zero
+    amount) the whole commitment of that account AS IT STANDS after the entries before it (the
+    same account may be listed more than once). *)
+Fixpoint release_delta (m : Z) (cs : list (key2 * coins)) (es : list (Z * coins)) (a d : Z) : Z :=
+  match es with
+  | [] => 0
+  | e :: r =>
+      match release_split (cget (m, fst e) cs) (snd e) with
+      | Some nr =>
+          (if fst e =? a then amt_of (snd nr) d else 0)
+          + release_delta m (cset (m, fst e) (fst nr) cs) r a d
+      | None => 0
+      end
+  end.
+
 Definition reserved_delta (s : state) (o : op) (a d : Z) : Z :=
   match o with
   | OCreate _ ord _ => if o_owner ord =? a then amt_of (order_hold ord) d else 0
-  | OCancel _ id => - order_req_of s id a d
-  | OSettle _ fulls part _ =>
+  | OCancel _ _ _ id => - order_req_of s id a d
+  | OSettle _ _ fulls part _ =>
       - sum_by (fun id => order_req_of s id a d) fulls
       - match part with
         | Some p =>
@@ -520,37 +602,35 @@ Definition reserved_delta (s : state) (o : op) (a d : Z) : Z :=
         | None => 0
         end
   | OCommit _ m acct amount _ => if acct =? a then amt_of amount d else 0
-  | ORelease _ m es =>
-      - sum_by (fun e => if fst e =? a
-                         then (if coins_is_zero (snd e) then amt_of (cget (m, fst e) (commits s)) d
-                               else amt_of (snd e) d)
-                         else 0) es
+  | ORelease _ m es => - release_delta m (commits s) es a d
   | OCommitSettle _ m i outs f => entries_amt outs a d - entries_amt i a d - entries_amt f a d
   | OPayCreate _ src _ samt _ _ => if src =? a then amt_of samt d else 0
   | OPayAccept _ src ext _ _ _ => - pay_req_of s (src, ext) a d
   | OPayReject _ _ src ext => - pay_req_of s (src, ext) a d
   | OPayRejectAll _ t srcs =>
-      - sum_by (pay_req a d)
-          (filter (fun e => existsb (Z.eqb (fst (fst e))) srcs && (p_target (snd e) =? t)) (pays s))
+      - sum_by (fun src => sum_by (pay_req a d) (pays_from_to t src (pays s))) (dedupe srcs [])
   | OPayCancel _ src exts => - sum_by (fun ext => pay_req_of s (src, ext) a d) (dedupe exts [])
   | OPayRetarget _ _ _ _ => 0
   | OManageFees _ => 0
+  | OSetExtId _ _ => 0
+  | OWithdraw _ _ _ => 0
   | OCloseMarket _ m =>
-      - sum_by (order_req a d) (filter (fun e => o_market (snd e) =? m) (orders s))
-      - sum_by (commit_req a d) (filter (fun e => fst (fst e) =? m) (commits s))
+      - sum_by (order_req a d) (market_orders m (orders s))
+      - sum_by (commit_req a d) (market_commits m (commits s))
   end.
 
-(** Operations that touch exactly one item (for which [reserved_delta] is proved exact). *)
-Definition single_item (o : op) : bool :=
+(** Operations whose [reserved_delta] is exact in EVERY state; the other two (reject-all,
+    close market) need the stores to be KV stores (distinct keys) and, for close market, every
+    record to be covered by the holds (else cancellations are skipped). *)
+Definition needs_wf (o : op) : bool :=
   match o with
-  | OCreate _ _ _ | OCancel _ _ | OCommit _ _ _ _ _ | OPayCreate _ _ _ _ _ _ | OPayAccept _ _ _ _ _ _
-  | OPayReject _ _ _ _ | OPayRetarget _ _ _ _ | OManageFees _ => true
-  | OSettle _ [] (Some _) _ => true
+  | OPayRejectAll _ _ _ | OCloseMarket _ _ => true
   | _ => false
   end.
 
 (** ** Genesis: InitGenesis stores the records and panics unless every account has at least the
-    required amount on hold for every denom its records need. *)
+    required amount on hold for every denom its records need (coverage only: holds that exceed
+    what the records need, or holds of accounts without records, are accepted). *)
 Definition genesis_keys (s : state) : list key2 :=
   flat_map (fun e => map (fun c => (o_owner (snd e), fst c)) (order_hold (snd e))) (orders s) ++
   flat_map (fun e => map (fun c => (snd (fst e), fst c)) (snd e)) (commits s) ++
